@@ -66,6 +66,33 @@ def compareCalls (mx : Nat) (strict : Bool) (inputs : List (List String)) :
         else compareCalls mx strict inputs cs buf' rest (k + 1)
       | .error _ => none
 
+/-- sizes of `n` successive reads from the transport, and the transport afterwards -/
+def readSizes (rooms : Nat → Nat) : Nat → Nat → List Bytes → List Nat
+  | 0, _, _ => []
+  | n + 1, k, chunks =>
+    let r := readSome (rooms k) chunks
+    r.1.length :: readSizes rooms n (k + 1) r.2
+
+def showRecvW (inputs : List (List String)) : Except RecvErr (Pdu × Bytes × List Bytes × Nat) → List String
+  | .ok (p, b, c, _) => showRecv inputs (.ok (p, b, c))
+  | .error e => showRecv inputs (.error e)
+
+/-- run the transport-level model (`receiveWire`) over the *scripted* segments with the given rooms;
+each call must give the logged result, make as many reads, and deliver the same sizes -/
+def compareWire (mx : Nat) (strict : Bool) (rooms : Nat → Nat) (inputs : List (List String)) :
+    List Call → Nat → Bytes → List Bytes → Nat → Option String
+  | [], _, _, _, _ => none
+  | c :: cs, k, buf, chunks, i =>
+    let r := receiveWire mx strict rooms k buf chunks
+    let shown := showRecvW inputs r
+    if shown ≠ c.result then some s!"call {i}: wire model={shown.take 8} impl={c.result.take 8}"
+    else match r with
+      | .ok (_, buf', rest, k') =>
+        let sizes := readSizes rooms (k' - k) k chunks
+        if sizes ≠ c.reads then some s!"call {i}: wire model reads {sizes} implementation {c.reads}"
+        else compareWire mx strict rooms inputs cs k' buf' rest (i + 1)
+      | .error _ => none
+
 def okResults (cs : List Call) : List (List String) :=
   (cs.filter (fun c => c.result.headD "" == "ok")).map (·.result)
 
@@ -115,10 +142,18 @@ def handle (line : String) : String :=
           let run (name : String) (cs : List Call) : Option String :=
             let reads := cs.flatMap (·.reads)
             (compareCalls mx strict inputs cs [] (cutStream stream reads) 0).map (s!"{name} " ++ ·)
-          match run "sync" syncCalls, run "async" asyncCalls with
-          | some m, _ => "MODEL-DIFF " ++ m
-          | _, some m => "MODEL-DIFF " ++ m
-          | none, none =>
+          -- 3. the transport-level models on the scripted segments: sync offers 8192 bytes per read,
+          -- async offers what its buffer had (the logged size of each read is the room it offered)
+          let segs := cutStream stream script
+          let asyncReads := asyncCalls.flatMap (·.reads)
+          let wireSync := (compareWire mx strict (fun _ => 8192) inputs syncCalls 0 [] segs 0).map ("sync " ++ ·)
+          let wireAsync := (compareWire mx strict (fun k => asyncReads.getD k 1) inputs asyncCalls 0 [] segs 0).map ("async " ++ ·)
+          match run "sync" syncCalls, run "async" asyncCalls, wireSync, wireAsync with
+          | some m, _, _, _ => "MODEL-DIFF " ++ m
+          | _, some m, _, _ => "MODEL-DIFF " ++ m
+          | _, _, some m, _ => "MODEL-DIFF " ++ m
+          | _, _, _, some m => "MODEL-DIFF " ++ m
+          | none, none, none, none =>
             let nreads := script.length
             let segClass :=
               if nreads ≤ 1 then "one" else if script.all (· == 1) then "bytes"
